@@ -39,9 +39,10 @@ Proof.
   - intros u. rewrite HT. destruct (Nat.eqb_spec u t) as [->|Hne']; cbn [refs clk x'].
     + intros _. eapply cle_trans; [apply (J2 s I t Hr) | exact Hcc].
     + apply (J2 s I u).
-  - intros u. destruct (J3 s I u) as [H3|[h [Hh H3]]]; [left; exact H3|].
-    right. exists h. rewrite HT. destruct (Nat.eqb_spec h t) as [->|Hne']; cbn [refs clk x']; [|auto].
-    split; [lia|]. specialize (Hcc u). lia.
+  - intros _ u. destruct (J3 s I Hl u) as [H3|[[h [Hh H3]]|[h [Hm H3]]]]; [left; exact H3| |].
+    + right. left. exists h. rewrite HT. destruct (Nat.eqb_spec h t) as [->|Hne']; cbn [refs clk x']; [|auto].
+      split; [lia|]. specialize (Hcc u). lia.
+    + exfalso. exact (mustfree_no_refs s h t I Hm Hr).
   - intros u. rewrite HT. destruct (Nat.eqb_spec u t) as [->|Hne']; cbn [mustfree clk pend x'].
     + intros Hm. destruct (J4 s I t Hm) as (_ & H0 & _). pose proof (T_le_total s t). lia.
     + intros Hm. destruct (J4 s I u Hm) as (_ & H0 & _). pose proof (T_le_total s t). lia.
@@ -61,11 +62,12 @@ Proof.
         { intros w Hw. pose proof (T2_le_total s t w (not_eq_sym Hw)). lia. }
         split; [exact Hl|]. split; [exact Hr1|]. split; [rewrite Htot; exact Htot1|]. split.
         -- eapply cle_trans; [apply (J2 s I t Hr) | exact Hcc].
-        -- intros v. destruct (J3 s I v) as [H3|[h [Hh H3]]].
+        -- intros v. destruct (J3 s I Hl v) as [H3|[[h [Hh H3]]|[h [Hm H3]]]].
            ++ unfold hdm in H3. rewrite Hms in H3. cbn [hd] in H3. subst c'. rewrite get_tick, !get_join.
               destruct (Nat.eqb_spec v t); subst; lia.
            ++ destruct (Nat.eqb_spec h t) as [->|Hne'']; [specialize (Hcc v); lia|].
               specialize (Hall0 h Hne''). lia.
+           ++ exfalso. exact (mustfree_no_refs s h t I Hm Hr).
     + intros He. destruct (J5 s I u He) as (_ & H1 & Ht1 & _).
       pose proof (T2_le_total s u t Hne'). lia.
   - intros Hf; congruence.
@@ -82,7 +84,8 @@ Lemma pres_free s t s' : Inv s -> step s t AFree = Ok s' -> Inv s'.
 Proof.
   intros I H. inv_step H. fold (T s t) in H.
   destruct (started (T s t)) eqn:Hst; cbn [negb] in H; [|discriminate].
-  destruct (mustfree (T s t)) eqn:Hmf; cbn [negb] in H; [|discriminate].
+  destruct (mustfree (T s t)) eqn:Hmf; cbn [negb andb] in H; [|discriminate].
+  destruct (cleb (pend (T s t)) (clk (T s t))) eqn:Hfen; cbn [negb] in H; [|discriminate].
   destruct (live s) eqn:Hl; cbn [negb] in H; [|discriminate].
   destruct (cleb _ _ && cleb _ _) eqn:Hc; cbn [negb] in H; [|discriminate].
   injection H as <-.
@@ -99,7 +102,7 @@ Proof.
   constructor; cbn [msgs Wc Rc live ths]; unfold hdm; cbn [msgs].
   - discriminate.
   - intros u. rewrite HT. destruct (Nat.eqb_spec u t) as [->|Hne']; cbn [refs clk x']; rewrite Hr0; lia.
-  - intros u. destruct (J3 s I u) as [H3|[h [Hh H3]]]; [left; exact H3|]. rewrite Hr0 in Hh. lia.
+  - discriminate.
   - intros u. rewrite HT. destruct (Nat.eqb_spec u t) as [->|Hne']; cbn [mustfree x']; [discriminate|].
     intros Hm. specialize (Huniq u Hm). contradiction.
   - intros u. rewrite HT. destruct (Nat.eqb_spec u t) as [->|Hne']; cbn [excl x']; [discriminate|].
